@@ -1168,10 +1168,20 @@ class SyncInterpreter(BaseInterpreter[TContext, TEvent]):
         def _runner() -> None:
             """Starts the child and cleans up when it's done or stopped."""
             try:
+                # 🛑 The parent may have been stopped (or have stopped this
+                #    child) before this thread got to run: `stop()` on the
+                #    not-yet-started child was a no-op, so starting it now
+                #    would leave an actor running that nobody can reach.
+                if self._actors.get(actor_id) is not child:
+                    return
                 # 🚀 Start the actor in the background thread.
                 child.start()
-                # 🔄 Keep the thread alive while the child runs.
-                while child.status == "running":
+                # 🔄 Keep the thread alive while the child runs and is still
+                #    this interpreter's child.
+                while (
+                    child.status == "running"
+                    and self._actors.get(actor_id) is child
+                ):
                     # 🏁 Exit loop if the child reaches a top-level final state.
                     if any(
                         s.is_final and s.parent == child.machine
